@@ -3,7 +3,7 @@
    proved; that the traversal consults them with the right result lists is checked on traces. *)
 From Coq Require Import List ZArith NArith Bool Arith Lia.
 Import ListNotations.
-From I2N Require Import Model.Retry Model.Traverse Model.TraverseRun Proofs.RetryProofs Proofs.TraverseProofs.
+From I2N Require Import Model.Retry Model.Traverse Model.TraverseRun Proofs.RetryProofs Proofs.TraverseProofs Proofs.TraverseInv.
 Open Scope Z_scope.
 
 (* clone sources and flat tests are never executed *)
@@ -26,3 +26,10 @@ Print Assumptions C03_rerun_needs_budget_partial.
 Theorem C03_stateless_first_run : forall c, runnable c -> run_stateless c [] = Some true.
 Proof. intros c [H1 [H2 H3]]. unfold run_stateless. now rewrite H1, H2, H3. Qed.
 Print Assumptions C03_stateless_first_run.
+
+(* for EVERY graph, initial pool population and schedule: flat tests and clone sources are never executed *)
+Theorem C03_inert_all_schedules : forall g p sched evs w i u pre l,
+  In evs (snd (run_schedule g (init_state g p) sched)) -> In (EStart w i u pre l) evs ->
+  n_flat (nd g i) = false /\ n_cloned (nd g i) = false.
+Proof. intros g p sched evs w i u pre l H1 H2. pose proof (all_starts_ok g p sched evs w i u pre l H1 H2) as H. unfold startable in H. tauto. Qed.
+Print Assumptions C03_inert_all_schedules.
